@@ -289,6 +289,23 @@ class Undefined(Exception):
     """a sub-expression is not defined on this record / the construct is outside the documented language"""
 
 
+class TooBig(Exception):
+    """the pair is not run at all: a sequence repetition / power / shift that would need huge memory"""
+
+
+def _guard(op, a, b):
+    if isinstance(op, ast.Mult):
+        for x, y in ((a, b), (b, a)):
+            if isinstance(x, (str, list, tuple)) and isinstance(y, int) and y > 5000:
+                raise TooBig()
+    if isinstance(op, (ast.Pow, ast.LShift)) and isinstance(b, int) and (b > 512 or b < -512):
+        raise TooBig()
+    if isinstance(a, int) and isinstance(b, int) and (a.bit_length() > 4096 or b.bit_length() > 4096):
+        raise TooBig()
+    if isinstance(op, ast.Add) and isinstance(a, (str, list, tuple)) and len(a) > 20000:
+        raise TooBig()
+
+
 class RefTypeValues:
     """Reference meaning of `Type.<type>` (documented: the comparison / membership holds for ANY field of that type)."""
 
@@ -454,12 +471,12 @@ def ref_eval(node, env, strict):
             return BUILTINS[node.id]
         import builtins as _b
         if hasattr(_b, node.id):
-            if strict:
+            if strict is True:
                 raise Undefined("a builtin that is not part of the language")
             return getattr(_b, node.id)
         raise NameError(node.id)
     if isinstance(node, ast.Attribute):
-        if strict and node.attr.startswith("__"):
+        if strict is True and node.attr.startswith("__"):
             raise Undefined("dunder attribute")
         return getattr(ref_eval(node.value, env, strict), node.attr)
     if isinstance(node, ast.List):
@@ -480,21 +497,22 @@ def ref_eval(node, env, strict):
                 return v
         return ref_eval(node.values[-1], env, strict)
     if isinstance(node, ast.UnaryOp):
-        if strict and not isinstance(node.op, LANG_UN):
+        if strict is True and not isinstance(node.op, LANG_UN):
             raise Undefined("operator outside the language")
         return PY_UN[type(node.op)](ref_eval(node.operand, env, strict))
     if isinstance(node, ast.BinOp):
-        if strict and not isinstance(node.op, LANG_BIN):
+        if strict is True and not isinstance(node.op, LANG_BIN):
             raise Undefined("operator outside the language")
         a = ref_eval(node.left, env, strict)
         b = ref_eval(node.right, env, strict)
+        _guard(node.op, a, b)
         return PY_BIN[type(node.op)](a, b)
     if isinstance(node, ast.Compare):
         left = ref_eval(node.left, env, strict)
         res = True
         for op, c in zip(node.ops, node.comparators):
             right = ref_eval(c, env, strict)
-            if strict and isinstance(op, (ast.In, ast.NotIn)) and isinstance(left, RefTypeValues):
+            if strict is True and isinstance(op, (ast.In, ast.NotIn)) and isinstance(left, RefTypeValues):
                 raise Undefined("typed matcher on the left of a membership test (documented as interpreter-only)")
             res = PY_CMP[type(op)](left, right)
             if not res:
@@ -503,7 +521,7 @@ def ref_eval(node, env, strict):
         return res
     if isinstance(node, ast.Call):
         f = ref_eval(node.func, env, strict)
-        if strict and not any(f is v for v in list(env.get("__callables__", ())) + list(BUILTINS.values())):
+        if strict is True and not any(f is v for v in list(env.get("__callables__", ())) + list(BUILTINS.values())):
             raise Undefined("call of something that is not a function of the language")
         args = []
         for a in node.args:
@@ -543,6 +561,8 @@ def outcome(fn):
         return ("val", fn())
     except Undefined as e:
         return ("undef", str(e))
+    except TooBig:
+        return ("undef", "too big")
     except RecursionError:
         raise
     except Exception as e:  # noqa
@@ -921,6 +941,16 @@ def run_pair(text, tree, r, sel_cache):
         sel_cache[text] = (Selector(text), CompiledSelector(text), compile(text, "<c07>", "eval"))
     s, c, code = sel_cache[text]
     ns = reference_namespace(r)
+    for mode in ("probe", False):
+        # "probe": eager like strict but nothing is Undefined -- only to find operations that would exhaust memory
+        try:
+            ref_eval(tree.body, ns, mode)
+        except TooBig:
+            return None
+        except RecursionError:
+            raise
+        except Exception:  # noqa
+            pass
     oi = outcome(lambda: s.match(rec))
     oc = outcome(lambda: c.match(rec))
     op = outcome(lambda: eval(code, dict(ns)))
@@ -1084,6 +1114,9 @@ def differential(ctx, kf, budget_pairs, maxdepth, rnd, with_coq, exhaustive=Fals
                 outs = run_pair(text, tree, r, chk.sel_cache)
             except RecursionError:
                 break
+            if outs is None:
+                chk.stats["harness_skips"] += 1
+                continue
             oi, oc, op, orf, os_ = outs
             npairs += 1
             ctx.count_case((shape_of(tree), r["which"], ri), nontrivial=nontrivial(text))
